@@ -66,6 +66,7 @@ type Solver struct {
 	Log       io.Writer // optional transcript
 	depth     int
 	OnSlow    func(dt float64, res SatResult)
+	fpSeen    bool // the current path has floating-point terms: use the qffpbv tactic (z3's incremental core is weak on FP)
 }
 
 func NewSolver(kind string, timeoutMS int) (*Solver, error) {
@@ -191,6 +192,7 @@ func (s *Solver) ResetPath() {
 		s.Pop()
 	}
 	s.defined = map[uint32]bool{}
+	s.fpSeen = false
 }
 
 // Define makes sure t (and its sub-terms) are defined at the current scope and returns its
@@ -200,7 +202,11 @@ func (s *Solver) Define(t *Term) string {
 	var sb strings.Builder
 	r := Emit(&sb, t, s.defined)
 	if sb.Len() > 0 {
-		s.send(sb.String())
+		txt := sb.String()
+		if !s.fpSeen && (strings.Contains(txt, "fp.") || strings.Contains(txt, "to_fp")) {
+			s.fpSeen = true
+		}
+		s.send(txt)
 	}
 	return r
 }
@@ -252,7 +258,11 @@ func (s *Solver) checkSat() SatResult {
 		return Unknown
 	}
 	t0 := time.Now()
-	s.send("(check-sat)\n")
+	if s.fpSeen && s.Kind != "cvc5" {
+		s.send(fmt.Sprintf("(check-sat-using (try-for qffpbv %d))\n", s.timeoutMS))
+	} else {
+		s.send("(check-sat)\n")
+	}
 	res := Unknown
 	sawErr := false
 	lines := s.sync()
